@@ -2,6 +2,10 @@
      V m|d <tree>        validate the tree against schema_manifest / schema_directory
      S dt|int|email <text>   the simple-type predicates on their own
      D y mo d h mi s us neg oh om   -> "R <text>"  render_datetime (decimal arguments, neg = 0/1)
+     RH <hashlist object>  -> "R <reach> <validate schema_manifest (emit_hashlist o)> <creator_reach|-> <procinfo_reach>
+                                 <record_reach of every record, as a 0/1 string or -> | <infoset (emit_hashlist o)>"
+     RC <chain object>     -> "R <reach_chain> <validate schema_directory (emit_chain c)> <chainent_reach bits> | <tree>"
+   object grammar: the one of harness/vh/props/c10.py / ocaml/xml_driver.ml (enc_hashlist, enc_chain)
    <tree> ::= E <tag> <n> (<name> <value>){n} (T <text> | N) <k> <tree>{k}
    text tokens: code points in hex joined by ".", "-" when empty.  The driver computes nothing itself. *)
 open Schema_model
@@ -15,7 +19,70 @@ let text_of_tok s =
 let tok_of_text l =
   if l = [] then "-" else String.concat "." (List.map (fun x -> Printf.sprintf "%x" (int_of_n x)) l)
 
-let parse_tree (a : string array) (i : int ref) =
+let z_of_int i = if i = 0 then Z0 else if i > 0 then Zpos (pos_of_int i) else Zneg (pos_of_int (- i))
+let hexval c = match c with
+  | '0'..'9' -> Char.code c - 48 | 'a'..'f' -> Char.code c - 87 | 'A'..'F' -> Char.code c - 55
+  | _ -> failwith "bad hex"
+let n_of_hex s =
+  let bits = ref [] in
+  String.iter (fun c -> let v = hexval c in bits := (v land 1 <> 0) :: (v land 2 <> 0) :: (v land 4 <> 0) :: (v land 8 <> 0) :: !bits) s;
+  let rec strip = function false :: r -> strip r | l -> l in
+  match strip (List.rev !bits) with
+  | [] -> N0
+  | _ :: rest -> Npos (List.fold_left (fun p b -> if b then XI p else XO p) XH rest)
+
+(* ---- object token stream (same grammar as ocaml/xml_driver.ml) ---- *)
+let toks : Stdlib.String.t list ref = ref []
+let next () = match !toks with x :: r -> toks := r; x | [] -> failwith "unexpected end of request"
+let p_text () = text_of_tok (next ())
+let p_opt f = match next () with "N" -> None | "S" -> Some (f ()) | x -> failwith ("bad option tag " ^ x)
+let p_otext () = p_opt p_text
+let p_int () = int_of_string (next ())
+let p_list f = let n = p_int () in let rec go i acc = if i = 0 then List.rev acc else go (i - 1) (f () :: acc) in go n []
+let p_bool () = next () = "1"
+let p_n () = n_of_hex (next ())
+let p_date () =
+  let y = n_of_int (p_int ()) in let mo = n_of_int (p_int ()) in let d = n_of_int (p_int ()) in
+  let h = n_of_int (p_int ()) in let mi = n_of_int (p_int ()) in let s = n_of_int (p_int ()) in
+  let us = n_of_int (p_int ()) in let off = z_of_int (p_int ()) in
+  { dt_y = y; dt_mo = mo; dt_d = d; dt_h = h; dt_mi = mi; dt_s = s; dt_us = us; dt_off = off }
+let p_entry () =
+  let f = p_text () in let dg = p_otext () in let a = p_otext () in let d = p_opt p_date in let s = p_otext () in
+  { xe_fmt = f; xe_digest = dg; xe_action = a; xe_date = d; xe_struct = s }
+let p_record () =
+  let p = p_otext () in let dir = p_bool () in let sz = p_opt p_n in let lm = p_opt p_date in
+  let es = p_list p_entry in let pv = p_otext () in
+  { xr_path = p; xr_dir = dir; xr_size = sz; xr_lastmod = lm; xr_entries = es; xr_prev = pv }
+let p_author () =
+  let n = p_otext () in let e = p_otext () in let ph = p_otext () in let r = p_otext () in
+  { xa_name = n; xa_email = e; xa_phone = ph; xa_role = r }
+let p_tool () = let n = p_otext () in let v = p_otext () in { xt_name = n; xt_version = v }
+let p_creator () =
+  let d = p_otext () in let h = p_otext () in let tl = p_opt p_tool in let au = p_list p_author in
+  let l = p_otext () in let c = p_otext () in
+  { xc_date = d; xc_host = h; xc_tool = tl; xc_authors = au; xc_location = l; xc_comment = c }
+let p_process () = let ty = p_otext () in let nm = p_otext () in { xp_type = ty; xp_name = nm }
+let p_procinfo () =
+  let pr = p_opt p_process in let rt = p_opt p_record in let ig = p_opt (fun () -> p_list p_otext) in
+  { xpi_process = pr; xpi_root = rt; xpi_ignore = ig }
+let p_ref () = let p = p_otext () in let c = p_otext () in { xf_path = p; xf_c4 = c }
+let p_hashlist () =
+  let c = p_opt p_creator in let pi = p_procinfo () in let rs = p_list p_record in let rf = p_list p_ref in
+  { xh_creator = c; xh_process = pi; xh_records = rs; xh_refs = rf }
+let p_seq () = match next () with
+  | "I" -> SeqInt (z_of_int (p_int ())) | "T" -> SeqStr (p_text ()) | "N" -> SeqNone | x -> failwith ("bad seq " ^ x)
+let p_chainent () =
+  let no = p_seq () in let f = p_otext () in let fm = p_otext () in let h = p_otext () in
+  { ce_no = no; ce_file = f; ce_fmt = fm; ce_hash = h }
+let rec tree_toks (Elem (tg, attrs, c, kids)) =
+  ["E"; tok_of_text tg; string_of_int (List.length attrs)]
+  @ List.concat_map (fun (k, v) -> [tok_of_text k; tok_of_text v]) attrs
+  @ (match c with None -> ["N"] | Some x -> ["T"; tok_of_text x])
+  @ [string_of_int (List.length kids)] @ List.concat_map tree_toks kids
+let bit b = if b then "1" else "0"
+let bits l = if l = [] then "-" else String.concat "" (List.map bit l)
+
+let parse_tree (a : Stdlib.String.t array) (i : int ref) =
   let next () = let s = a.(!i) in incr i; s in
   let rec tree () =
     if next () <> "E" then failwith "E expected";
@@ -46,11 +113,25 @@ let () =
             let v = text_of_tok a.(2) in
             let r = (match a.(1) with "dt" -> datetime_ok v | "int" -> integer_ok v | "email" -> email_ok v | _ -> failwith "stype") in
             if r then "R 1" else "R 0"
+          | "RH" ->
+            toks := List.tl (Array.to_list a);
+            let o = p_hashlist () in
+            if !toks <> [] then failwith "trailing tokens";
+            let x = emit_hashlist o in
+            String.concat " " (["R"; bit (reach o); bit (validate schema_manifest x);
+                                (match o.xh_creator with Some c -> bit (creator_reach c) | None -> "-");
+                                bit (procinfo_reach o.xh_process); bits (List.map record_reach o.xh_records); "|"] @ tree_toks (infoset x))
+          | "RC" ->
+            toks := List.tl (Array.to_list a);
+            let c = p_list p_chainent in
+            if !toks <> [] then failwith "trailing tokens";
+            let x = emit_chain c in
+            String.concat " " (["R"; bit (reach_chain c); bit (validate schema_directory x); bits (List.map chainent_reach c); "|"] @ tree_toks (infoset x))
           | "D" ->
             let n k = n_of_int (int_of_string a.(k)) in
             "R " ^ tok_of_text (render_datetime (n 1) (n 2) (n 3) (n 4) (n 5) (n 6) (n 7) (a.(8) = "1") (n 9) (n 10))
           | _ -> "R ?"
-        with e -> "R !" ^ Printexc.to_string e in
+        with e -> "R !" ^ (match e with Failure m -> m | _ -> Printexc.to_string e) in
       print_string reply; print_newline ()
     done
   with End_of_file -> ()
